@@ -19,7 +19,7 @@ L.update(lemmas(COQ + '/Proofs/C15Owners.v'))
 L.update(lemmas(COQ + '/Proofs/C15Strftime.v'))
 L.update(lemmas(COQ + '/Proofs/C15Wide.v'))
 L.update(lemmas(COQ + '/Proofs/C15Text.v'))
-for extra in ('C15Utf8', 'C15SfItems', 'C15Parse', 'C15Deep', 'C15Format', 'C15Errors'):
+for extra in ('C15Utf8', 'C15SfItems', 'C15Parse', 'C15Deep', 'C15Format', 'C15Errors', 'C15Serde'):
     if os.path.exists(COQ + '/Proofs/%s.v' % extra):
         L.update(lemmas(COQ + '/Proofs/%s.v' % extra))
 
@@ -159,6 +159,18 @@ SECTIONS = [
    ('C15_isoweek_debug_total', 'isoweek_debug_total', 'format!(\"{:?}\", date.iso_week()) for every date (the ISO week exists: C15_fact_iso_week_total)'),
    ('C15_wdset_debug_total', 'wdset_debug_total', 'Debug of WeekdaySet: the prefix, exactly seven binary digits, the suffix'),
  ]),
+ ("The serde carriers (Model/Serde.v; stream, data formats and round trips are C20's) never trap, at full strength (Proofs/C15Serde.v): the string deserializers are the FromStr impls (visit_str = value.parse()) -- every string; a visitor method an impl does not define is serde's invalid-type error, by value; [sval_ok v]: a string handed to visit_str is a string of a length a Rust string can have.  The string serializers of NaiveTime / NaiveDateTime: every value, leap-second fractions on any second included.  The sixteen timestamp helper modules ([Proofs.C20Ts.plain_mods] / [option_mods]: the module numbers of Gen/SerdeConsts.v): serialize of EVERY well-formed date-time (C20_ts_serialize_spec states the written number for non-leap values)", [
+   ('C15_serde_de_date_total', 'de_date_total', ''),
+   ('C15_serde_de_time_total', 'de_time_total', ''),
+   ('C15_serde_de_ndt_total', 'de_ndt_total', ''),
+   ('C15_serde_de_dt_fixed_total', 'de_dt_fixed_total', ''),
+   ('C15_serde_de_dt_utc_total', 'de_dt_utc_total', ''),
+   ('C15_serde_de_names_total', 'de_names_total', 'Weekday / Month: the premises of C15_weekday_month_from_str_total on the string'),
+   ('C15_serde_ser_time_total', 'ser_time_total', ''),
+   ('C15_serde_ser_ndt_total', 'ser_ndt_total', ''),
+   ('C15_serde_ts_serialize_total', 'ts_serialize_total', 'timestamp() / _millis() / _micros() do not overflow anywhere in the range (C02_timestamp*_no_overflow), timestamp_nanos_opt() = None is the custom error'),
+   ('C15_serde_ts_serialize_option_total', 'ts_serialize_option_total', ''),
+ ]),
  ("The format-string iterator NEVER TRAPS (dedicated proof, Proofs/C15Strftime.v: every slice of strftime.rs is taken at a character boundary of the well-formed input, the index arithmetic stays in usize, assert!(nextspec > 0) holds), strict or lenient, with or without the repair of error(); with C12's termination theorem: it yields a finite item list of at most 13 items per byte, and StrftimeItems::parse / parse_to_owned / count return", [
    ('C15_strftime_never_panics', 'strftime_never_panics', ''),
    ('C15_strftime_items_total', 'strftime_items_total', ''),
@@ -193,9 +205,9 @@ HEADER = '''(** C15 -- fallible operations fail by value, not by panic or hang.
     Which inventory entries (gen/C15_inventory.json, printed in the evidence) have such a theorem and
     which are covered by correspondence + judge only is listed at the end of this file. *)
 From Coq Require Import ZArith List Bool String.
-From V Require Import Base.Int Base.IO Spec.Gregorian Model.Strftime Proofs.C15 Proofs.C15Owners Proofs.C15Strftime Proofs.C15Wide Proofs.C15Text Proofs.C15Utf8 Proofs.C15SfItems Proofs.C15Deep Proofs.C15Format Proofs.C15Errors.
+From V Require Import Base.Int Base.IO Spec.Gregorian Model.Strftime Proofs.C15 Proofs.C15Owners Proofs.C15Strftime Proofs.C15Wide Proofs.C15Text Proofs.C15Utf8 Proofs.C15SfItems Proofs.C15Deep Proofs.C15Format Proofs.C15Errors Proofs.C15Serde.
 From V Require Model.Date Model.Time Model.DateTime Model.TimeDelta Model.DateExtra Model.Parsed Model.Parse Model.Rfc3339 Model.Show Model.Round Model.C02 Model.C15 Model.C19 Gen.Strftime
-               Base.Utf8 Model.Scan Model.FromStr Model.Rfc2822 Model.Format Proofs.C12 Proofs.C13Total Proofs.C13Time Proofs.C14.
+               Base.Utf8 Model.Scan Model.FromStr Model.Rfc2822 Model.Format Model.Serde Model.ScanNames Proofs.C12 Proofs.C13Total Proofs.C13Time Proofs.C14 Proofs.C19 Proofs.C20Ts.
 Import ListNotations.
 Open Scope Z_scope.
 
@@ -224,6 +236,8 @@ out.append(TAIL)
 if 'wide_hypotheses_inhabited' in L:
     out.append('(* ... and those of the full forms: [z_wide] = MAX_UTC\'s last second with a leap-second fraction seen from +02:00 (wall clock\n   one day outside the date range), [l_wide] = 2016-12-31T23:59:60.5 (Proofs/C15Text.v) *)')
     out.append('Example C15_wide_hypotheses_inhabited :\n  %s.\nProof. exact wide_hypotheses_inhabited. Qed.\nPrint Assumptions C15_wide_hypotheses_inhabited.\n' % L['wide_hypotheses_inhabited'][1])
+if 'serde_hypotheses_inhabited' in L:
+    out.append('Example C15_serde_hypotheses_inhabited :\n  %s.\nProof. exact serde_hypotheses_inhabited. Qed.\nPrint Assumptions C15_serde_hypotheses_inhabited.\n' % L['serde_hypotheses_inhabited'][1])
 if 'errors_hypotheses_inhabited' in L:
     out.append('Example C15_errors_hypotheses_inhabited :\n  %s.\nProof. exact errors_hypotheses_inhabited. Qed.\nPrint Assumptions C15_errors_hypotheses_inhabited.\n' % L['errors_hypotheses_inhabited'][1])
 if 'deep_hypotheses_inhabited' in L:
@@ -255,6 +269,24 @@ for kind, test in (('THEOREM of this file', lambda t: t.startswith('C15_') and n
                 row += e + '; '
             lines.append(row.rstrip())
     lines.append('')
+lines += [
+ '   What the theorems above do NOT state, and why (covered by the correspondence run + judge only):',
+ '     - premises kept: [str_ok] / the length bounds (a Rust string has at most isize::MAX bytes, so the premise',
+ '       excludes nothing real); Gen.Strftime.SF_ERROR_CONSUMES = true (the repaired error() of strftime.rs: on an',
+ '       unrepaired tree the strict iterator yields Error items for ever and the theorems do not apply -- the',
+ '       check then reports the hang through c15.itemcount / sf.items); [Proofs.C14.typed] (the Rust types of the',
+ '       Parsed fields); [Proofs.C12.args_view] (discharged for every value by the *_has_view lemmas of',
+ '       Proofs/C15Format.v, stated inside C15_delayed_format_items_total / _strftime_total);',
+ '     - the 45 entries under OWNER: the owner\'s theorem already has the form [f args = Val ...] for all typed',
+ '       arguments; they are not restated here (a restatement would add no proof);',
+ '     - not modelled at all, hence outside every theorem: the Local zone and its tz_info reader (C05 / C16 / C18,',
+ '       environment dependent; excluded from the inventory by the property text), the locale-aware formatting',
+ '       of the unstable-locales feature, serde\'s own dispatch and the data formats (C20 trusted base), rkyv /',
+ '       arbitrary glue, and everything core::fmt does below a write! with arguments (padding of integers:',
+ '       modelled by Model.Format.fmt_int, compared with the code by the correspondence run);',
+ '     - the link between model and code itself: every theorem is about the Gallina model; that the model IS the',
+ '       code is the correspondence run (same cases through implrun and modelrun) -- see trusted_base.json.',
+ '']
 lines.append('*)')
 out.append('\n'.join(lines))
 open(os.path.join(COQ, 'Props', 'C15.v'), 'w').write('\n'.join(out) + '\n')
